@@ -143,7 +143,7 @@ func makeValue(kind, shape string, r *rand.Rand) *value {
 		s.Groups = groupList(r, 130+r.Intn(120))
 	case "groups1000":
 		fill()
-		s.Groups = groupList(r, 1000+r.Intn(200))
+		s.Groups = groupList(r, 1000+r.Intn(3200)) // up to some 150 KB of JSON: whatever is sealed opens again, however large
 	default:
 		panic("shape " + shape)
 	}
